@@ -1,6 +1,24 @@
 import Dm.Props.C17
+import Dm.Props.C17Typed
 #print axioms Dm.Props.C17.order_independent
 #print axioms Dm.Props.C17.unknown_rejected
 #print axioms Dm.Props.C17.repeated_rejected
 #print axioms Dm.Props.C17.contradiction_rejected
 #print axioms Dm.Props.C17.attribute_forms_rejected
+#print axioms Dm.Props.C17.many_type_lists
+#print axioms Dm.Props.C17.types_one_attribute_or_many
+#print axioms Dm.Props.C17.trailing_comma
+#print axioms Dm.Props.C17.skip_ignore_synonyms
+#print axioms Dm.Props.C17.attribute_order_free
+#print axioms Dm.Props.C17.two_attributes_only_type_lists
+#print axioms Dm.Props.C17.accepted_arguments_are_types
+#print axioms Dm.Props.C17.from_legacy_rejected
+#print axioms Dm.Props.C17.try_from_accepts_exactly
+#print axioms Dm.Props.C17.into_one_attribute_or_many
+#print axioms Dm.Props.C17.into_many_attributes_or_one
+#print axioms Dm.Props.C17.into_trailing_comma
+#print axioms Dm.Props.C17.into_attribute_order_free
+#print axioms Dm.Props.C17.into_struct_two_attributes
+#print axioms Dm.Props.C17.into_accepted_arguments
+#print axioms Dm.Props.C17.into_field_skip
+#print axioms Dm.TypedAttr.legacy_rejected_anyway
